@@ -394,7 +394,7 @@ pub fn run(ctx: &Ctx, rep: &mut Report) {
     rep.prop(
         "layout",
         "proptest: VCP messages with k in 0..=51 cuts, every header and cut field an arbitrary value of its wire type, decoded directly and inside a 2432-byte frame; non-trivial = k >= 2",
-        ctx.tier.pick(80_000, 15_000_000),
+        ctx.tier.pick(1_000_000, 15_000_000),
         || (gen::vcp(gen::vcp_cut_count()), gen::filler(), gen::msg_header(5, None)).prop_map(|(vcp, filler, header)| LayoutCase { vcp, filler, header }),
         |c| CaseInfo::new(c.vcp.cuts.len() >= 2).class(c.vcp.cuts.is_empty(), "zero-cuts").class(c.vcp.cuts.len() == 51, "full-frame"),
         check_layout,
